@@ -9,7 +9,8 @@ ROOT = Path(__file__).resolve().parent.parent
 REV = {"0601d12": "C07", "5cd97c7": "C08", "72232ff": "C07", "b2a6c03": "C06", "5488476": "C13", "fb79cd8": "C13", "e6a0000": "C14",
        "a1aa2f4": "C14", "86510d8": "C09", "b4c59b8": "C09", "221c312": "C01", "f947dd6": "C02", "2040e93": "C18", "d7e113b": "C08",
        "59396b3": "C08", "fc15232": "C08", "4ccf729": "C10", "770540a": "C05", "a27247f": "C11", "09b58a9": "C19", "40c2088": "C20",
-       "5b9db84": "C20", "58621b1": "C10", "b4e3172": "C15"}
+       "5b9db84": "C20", "58621b1": "C10", "b4e3172": "C15", "da65ae4": "C06", "10439ea": "C06", "78e7877": "C06", "1d98faa": "C06",
+       "4636fe8": "C06", "0f20190": "C06"}      # 99d2244 (random_selection) is too rare for the quick tier: ~1 run in 10^4
 EXPECT_MISS = {"C05-agent3"}        # documented as out of reach (DESIGN.md 11.4)
 want = sys.argv[1:]
 jobs = []
